@@ -330,6 +330,7 @@ def r4_advance(ck, F):
     R = "C05-R4"
     b = F.body(A("advance_key"))
     names = [callee_name(c).rsplit("::", 1)[-1] for s, c, t in b.calls()]
+    names = [n for n in names if n not in ("branch", "from_residual")]      # `x?` on an Option: plumbing, not an operation
     if "rposition" in names:
         return _advance_rposition(ck, R, F, b, names)
     ck.ob(R, "calls", sorted(names) == sorted(["deref_mut", "last_mut", "checked_add", "pop"]), f"advance_key calls {names}", b, nontrivial=False)
@@ -368,7 +369,8 @@ def r4_advance(ck, F):
     some_ret = [alt for alt, s in rets if alt.k == "agg" and alt.x.get("variant") == "Some" and s and s.bb in some_reg and is_arg(alt.a[0], "bytes")]
     ck.ob(R, "arm/no-overflow", okw and len(some_ret) == 1, "byte < 0xFF: the incremented byte is written back and Some(bytes) is returned", b)
     ck.ob(R, "arm/overflow", pp[0][0].bb in none_reg and is_arg(b.arg_exprs(pp[0][0])[0], "bytes") and b.in_loop(pp[0][0].bb), "byte == 0xFF: the byte is popped and the loop continues with the shorter key", b, pp[0][0])
-    none_ret = [alt for alt, s in rets if alt.k == "agg" and alt.x.get("variant") == "None"]
+    from .c03 import _is_none_alt
+    none_ret = [alt for alt, s in rets if _is_none_alt(alt)]
     # loop exit on empty
     lsw = None
     for bb2 in sorted(b.normal_blocks()):
@@ -376,6 +378,8 @@ def r4_advance(ck, F):
             e, enum, labels2, oth = switch_on(b, bb2)
             if e.k == "discr" and e.a[0].strip().k == "call" and e.a[0].strip().x.get("site") == lm[0][0]:
                 lsw = labels2
+            elif e.k == "discr" and e.a[0].k == "call" and e.a[0].x["path"].endswith("Try>::branch") and e.a[0].a and e.a[0].a[0].strip().k == "call" and e.a[0].a[0].strip().x.get("site") == lm[0][0] and "Break" in labels2:
+                lsw = {"None": labels2["Break"], "Some": labels2.get("Continue")}      # `bytes.last_mut()?`
     ok = lsw is not None and len(none_ret) == 1 and none_ret[0].x.get("site") is not None and b.dominates(lsw["None"], none_ret[0].x["site"].bb) and len(rets) == 2
     ck.ob(R, "arm/empty", ok, "no byte left: None is returned (and these are the only two exits)", b)
 
